@@ -121,7 +121,12 @@ struct PqCase {
         if (GuardRemove && r.empty())
           break;
         size_t before = r.count(x);
-        bool ret      = q.remove(x);
+        // unguarded variant: the library may spin forever here; give up fast
+        if (!GuardRemove && r.empty())
+          alarm(3);
+        bool ret = q.remove(x);
+        if (!GuardRemove && r.empty())
+          alarm(30);
         if (ret != (before > 0))
           sx::fail(C + ":remove-return", "after %s: returned %d, %zu copies "
                                          "were present",
